@@ -2,6 +2,7 @@
    Every check returns a nat: 0 = agree, otherwise the kind of mismatch. *)
 From Coq Require Import QArith List String Bool.
 From Allfed Require Import Base.Dec Base.QList Model.Helpers.
+From Allfed Require Model.MeatDairy.
 Import ListNotations.
 Open Scope Q_scope.
 
@@ -86,3 +87,23 @@ Definition check_order (src_order : list (string * list string)) (src_validator 
 Definition mk_r1 (fish meat milk gh imm ns sf scp cs sw : list Q) : r1_eaten :=
   {| e_fish := fish; e_meat := meat; e_milk := milk; e_greenhouse := gh; e_immediate_oc := imm;
      e_new_stored_oc := ns; e_stored_food := sf; e_scp := scp; e_cell_sugar := cs; e_seaweed := sw |}.
+
+(* the `increase` argument of a real call of increase_biofuels_then_feed against the model of the round-3 top-up
+   (Model/MeatDairy.increase_of, the function the composition theorems of Proofs/RoundsComp.v use):
+   inc[m] = max0((meat3[m] - meat1[m]) / 2 * k - const) / k,  k = 1e9 / days_in_month / population
+   (billion kcals per month -> kcals per person per day), const = 20 (100 for NZL).
+   |model - observed| <= tol * |model| + atol.   1 = values differ, 3 = lengths differ *)
+Fixpoint close_abs_list (tol atol : Q) (a b : list Q) : bool :=
+  match a, b with
+  | [], [] => true
+  | x :: a', y :: b' => Qle_bool (Qabs' (x - y)) (tol * Qabs' x + atol) && close_abs_list tol atol a' b'
+  | _, _ => false
+  end.
+
+Definition check_increase (tol atol population days const : Q) (meat1 meat3 inc : list Q) : nat :=
+  let k := 1000000000 / days / population in
+  if negb (Nat.eqb (List.length meat3) (List.length inc) && Nat.eqb (List.length meat1) (List.length inc)) then 3%nat
+  else
+    let model := tab (List.length inc)
+                     (fun m => Qred (MeatDairy.increase_of k const (nth m meat3 0) (nth m meat1 0))) in
+    if close_abs_list tol atol model inc then 0%nat else 1%nat.
